@@ -306,7 +306,9 @@ CHECKS = {
                  "combinations through real Composition.connect() plus a location-based oracle; the compatibility rule itself "
                  "(masks_compatible, Info.accepts) is regenerated from mask.py / info.py on every run and proved equal to the "
                  "model's masksCompatible / accepts (tr_masks_compatible, tr_Info_accepts), the translation validated against the "
-                 "real functions on the catalogue."),
+                 "real functions on the catalogue; Output.get_info is translated too (flat fields) and code_get_info / "
+                 "code_get_info_complete state its outcome directly on the regenerated code (no unset field after a successful "
+                 "exchange, set fields untouched, refusal exactly when Info.accepts says no)."),
         "design_ref": "5/C07",
         "technique": "Lean 4 proof (induction over adapter chains with an adapter-state invariant; case analysis of accepts/get_info) + model/implementation correspondence",
     },
